@@ -78,7 +78,9 @@ CHECKS = {
   "text": "Four value-provenance obligations decided over MIR on every path: add_defun hashes value.code, stores the same value, "
           "keys the symbol by that hash and maps it to the function's own name/arguments; codegen_ hands add_defun the unchanged "
           "result of the last per-function rewrite; finalize_env_ lays the stored code into the environment through clone/borrow "
-          "only; the reported symbols are copied from function_symbols after the last codegen_ call. Structural clause only.",
+          "only; the reported symbols are copied from function_symbols after the last codegen_ call; nested compilations use a "
+          "fresh table; synthesised functions report their own arguments; source locations never overwrite name entries; the "
+          "extraction search (path_to_function) compares atom nodes too. Structural clause only.",
   "note": "Not decided: that whole-program passes leave quoted bodies untouched; the 'every reachable function has an entry' "
           "clause; the behavioural 'extracting and running gives the function's result' clause (value-level).",
   "technique": "MIR value-flow (derives-from) obligations + combinator-chain analysis",
@@ -88,7 +90,9 @@ CHECKS = {
   "text": "Decides, on every path of the current sources, the presence of the rejection mechanisms the property depends on: "
           "guarded-insert typestate for the inline-recursion set and for duplicate assign bindings, redefinition guard on both "
           "tables before every add_defun/add_inline (combinator-chain analysis), strict-dialect unbound-identifier guard "
-          "(edge polarity), and reporting/propagation of the toposort deadlock. Structural clause only.",
+          "(edge polarity), reporting/propagation of the toposort deadlock, the sort loop examining every item, and an "
+          "inventory of error-discarding combinators on compile errors (a swallowed CompileErr no longer rejects). Structural "
+          "clause only.",
   "note": "Does not decide that every use position reaches these mechanisms (macro output, evaluator paths), nor termination in "
           "general. One reviewed exception (tables/c10_exceptions.json).",
   "technique": "MIR dominance / edge-polarity rules + Result-combinator chain analysis",
@@ -107,12 +111,13 @@ CHECKS = {
  },
  "C14": {
   "text": "Static inventory (from MIR) of panic-capable sites of fixed kinds reachable from the front-end entry points - "
-          "constant-index accesses, constant-start slicing, unwrap/expect, explicit panics, integer and big-integer division - "
+          "constant-index accesses, constant-start and computed-range slicing (sequences: bound compared with the length; strings: "
+          "bounds from find/len searches), unwrap/expect, explicit panics, integer and big-integer division - "
           "each discharged on every path by a forward length-domain abstract interpretation with helper summaries, an "
           "infallible-producer list, a dominating Some/Ok test, a constant divisor or a reviewed table line; plus: every "
           "compile-time CLVM evaluation started by the compiler is step-bounded and the evaluator tests the bound before each "
-          "step. Reviewed table lines may carry machine-checked preconditions (e.g. the classified token reaches the parser "
-          "unaltered). Decides this structural clause, not termination or the located-error clause. Found F3-F5, F9-F14 (fixed).",
+          "step. Table keys are rename/line/closure-number insensitive. Reviewed table lines may carry machine-checked preconditions (e.g. the classified token reaches the parser "
+          "unaltered). Decides this structural clause, not termination or the located-error clause. Found F3-F5, F9-F14, F22 (fixed).",
   "note": "Not decided (counted in evidence): variable-index accesses, debug-only overflow checks, RefCell double borrows, "
           "allocation failure, stack depth, panics inside dependencies, general termination. tables/panic_sites.json holds the "
           "reviewed sites (classes environment / constant / invariant / caller-guarded / baseline-unproven); wrong reviews are "
@@ -122,13 +127,15 @@ CHECKS = {
  },
  "C05": {
   "text": "Decides six structural clauses on every path of the current sources: every std hash-container iteration "
-          "(51 today, found by type) is consumed order-insensitively, sanitised by a sort, unreachable from the compile "
+          "(found by type) is consumed order-insensitively (map inserts keyed by a function of the entry's value count as "
+          "order-sensitive), sanitised by a sort, unreachable from the compile "
           "entry points, or listed with a reviewed reason; the same lattice for B-trees keyed by tree digests (history "
           "channel through the fresh-name counter; found F1, fixed); inventory of interior-mutable globals; who-may-touch "
           "the counter and the int-mode thread-local; RAII typestate of the int-mode guard; no ambient inputs reachable "
           "from compile entry points. A finite set of runs cannot observe these channels (seeds agree, counters start at 0).",
   "note": "Trusts rustc MIR/Freeze, the order-taint classifier (self-tested both ways) and tables/hash_order.json (8 reviewed "
-          "lines; the de-inlining hill climb's hash order was a genuine defect, F16, fixed). One known finding (F17: generated names "
+          "lines; the de-inlining hill climb's hash order was a genuine defect, F16, and a reviewed line for the classic symbol "
+          "dump was wrong, F21 - both fixed). One known finding (F17: generated names "
           "in the symbol table). Does not decide that emitted code contains no "
           "generated names, nor ordering by generated *names* (only by digests).",
   "technique": "MIR order-taint analysis (type-driven sources, loop/closure effect classification) + typestate + who-may-call + reviewed table",
@@ -159,7 +166,8 @@ CHECKS = {
  "C20": {
   "text": "Exhaustive static comparison of every operator table harvested from the current sources "
           "(HIR literal arrays, MIR dispatch of both dialects, version selectors, step-machine and helper "
-          "constants): decides the whole property for the finite tables as written, on every path.",
+          "constants), any further literal table pairing operator names with opcodes, and the per-call choice of the base dialect "
+          "in the `run` tool's evaluator: decides the whole property for the finite tables as written, on every path.",
   "note": "Trusts rustc HIR/MIR construction, clvmr 0.16.2 (offline registry) as the consensus evaluator, and the "
           "reviewed keyword->implementation map tables/c20_kw_impl.json. Operator semantics/arity not decided.",
   "technique": "HIR/MIR table extraction (rustc_private driver) + exhaustive cross-table comparison",
